@@ -345,6 +345,48 @@ pub fn c03_concurrent(run: &Run, thorough: bool) {
   run.set("concurrent_part", json!({"harnesses": items.len(), "schedules": execs.load(Ordering::Relaxed), "preemption_bound": if thorough { 4 } else { 3 }, "menu": menu.iter().map(|p| progs_str(&[p.clone()])).collect::<Vec<_>>(), "note": "threads allocate from fresh space at odd cursor residues (CAS retry paths) and from recycled segments; every returned handle is checked for the requested capacity and alignment"}));
 }
 
+fn prop_c08(class: &str) -> Option<&'static str> {
+  match class {
+    "not-zeroed" => Some("C08"),
+    _ => None,
+  }
+}
+
+/// C08 under concurrency: buffers that other threads filled and released (from the top of the arena or
+/// into the free list) while the allocating call was in flight must still come back zero-filled.
+pub fn c08_concurrent(run: &Run, thorough: bool) {
+  use TOp::*;
+  let menu: Vec<Vec<TOp>> = vec![vec![B(16)], vec![B(16), DropOwn], vec![B(24)], vec![BO(16), DropOwn], vec![B(16), DropOwn, B(16)], vec![DropPre(1)], vec![B(8), B(8)]];
+  let mut items = vec![];
+  for fl in [Fl::Optimistic, Fl::Pessimistic, Fl::None] {
+    // (fresh bytes left, cursor residue, free-list shape)
+    for (leave, odd, shape) in [(16u32, 0u8, 0u8), (24, 0, 1), (16, 3, 3), (0, 0, 3)] {
+      if fl == Fl::None && shape != 0 {
+        continue;
+      }
+      for i in 0..menu.len() {
+        for j in i..menu.len() {
+          if menu[i] == vec![DropPre(1)] && menu[j] == vec![DropPre(1)] {
+            continue;
+          }
+          items.push((Harness { fl, unify: true, min_seg: 8, cap: 256, shape, progs: vec![menu[j].clone(), menu[i].clone()], own_arenas: false, leave, odd }, if thorough { 4 } else { 3 }));
+        }
+      }
+    }
+  }
+  let execs = AtomicU64::new(0);
+  let events = AtomicU64::new(0);
+  par_for_each(&items, |_, (h, bound)| {
+    let xc = ExploreCfg { bound: *bound, hb: false, drain: false, prop_of: prop_c08, max_execs: 5_000_000, cache: false };
+    let st = explore(run, h, &xc, "C08");
+    execs.fetch_add(st.execs, Ordering::Relaxed);
+    events.fetch_add(st.events, Ordering::Relaxed);
+  });
+  run.eval(execs.load(Ordering::Relaxed));
+  run.trans(events.load(Ordering::Relaxed));
+  run.set("concurrent_part", json!({"harnesses": items.len(), "schedules": execs.load(Ordering::Relaxed), "preemption_bound": if thorough { 4 } else { 3 }, "menu": menu.iter().map(|p| progs_str(&[p.clone()])).collect::<Vec<_>>(), "note": "two threads allocate, fill and release around the last bytes of fresh space and the free list; every buffer returned by alloc_bytes / alloc_bytes_owned is scanned for non-zero bytes before the harness fills it"}));
+}
+
 /// C12, relaxed-memory part: loom models of the bump cursor and the reference counter (built by
 /// bin/check from /verif/loomcheck against the subject's own `loom` feature).
 fn loom_models(run: &Run) {
